@@ -53,7 +53,10 @@ RULE = ("field maps: regenerated from /repo/src on every run (all structs derivi
         "following an add, then the rest of the history and >= 12 further tempering steps); one Ising configuration in three with NON-dyadic couplings (0.3, 0.7, 1.1) and RVB on, plus SmallRng runs on four small "
         "frustrated graphs with non-dyadic couplings x 3 (Gamma, beta) x 6/24 seeds with an RNG-less snapshot at every k = 0..50/60 and the "
         "two fixed regression inputs of the pooled-residue seed; after EVERY step of EVERY copy the allocator hook log is read and every "
-        "instance handed back to a scratch pool must be in its reset state (hidden state outside the snapshot); a snapshot in both forms at EVERY step "
+        "instance handed back to a scratch pool must be in its reset state (hidden state outside the snapshot); Ising and generic samplers started from a PREPARED operator string (FastOps::new_from_ops through the manager hooks) holding legal "
+        "but non-canonical ops — constant single-site ops written as Offdiagonal(s, s), as tests/check_rvb_crash.rs writes them — with "
+        "snapshots at k = 0..3 (right after restore every op's vars, bond, inputs, outputs, is_diagonal(), is_constant() must equal the "
+        "original's: they are part of the compared operator string); a snapshot in both forms at EVERY step "
         "index k = 0..K, then m further steps on original / with-RNG copy / RNG-less copy / a copy that is snapshot-restored "
         "after every step, comparing state, operator string, n, cutoff, energy bits, rvb rate bits, verify() and the full JSON "
         "snapshot after each step.  Non-trivial = at least one operator present at the snapshot point; distinct = distinct "
